@@ -9,4 +9,5 @@ cd /verif
 timeout 3000 ./vf check $P --tier $T > /tmp/seed_$P.out 2>&1
 rc=$?
 cd /repo && git checkout -- . 
+cd /verif && git checkout -- evidence/$P.json 2>/dev/null
 echo "exit=$rc"; grep -c "^VIOLATION" /tmp/seed_$P.out; grep -A1 "^VIOLATION" /tmp/seed_$P.out | grep cell= | head -4; tail -1 /tmp/seed_$P.out
